@@ -100,6 +100,7 @@ type Task struct {
 	adopted   bool
 	waiter    *Waiter
 	prio      int
+	tdYields  int    // scheduling points passed after the run was over (see parkEligible)
 	Tag       string // free label set by the harness (e.g. which connection a task serves)
 }
 
@@ -355,10 +356,22 @@ func (s *Sched) kick() {
 }
 
 // parkEligible parks the calling task until the scheduler releases it.
+// teardownYieldCap bounds the scheduling points one task may pass while the run is torn down.
+const teardownYieldCap = 50000
+
 func (s *Sched) parkEligible(t *Task, site string) {
 	s.mu.Lock()
 	if s.teardown {
+		// Code that is unwinding (deferred functions of a poisoned task) passes its scheduling
+		// points freely. A task that keeps passing them is not unwinding but spinning - a busy
+		// loop of the system under test that nothing will ever stop - and is ended here, or the
+		// bubble would never be left.
+		t.tdYields++
+		spin := t.tdYields > teardownYieldCap
 		s.mu.Unlock()
+		if spin {
+			runtime.Goexit()
+		}
 		return
 	}
 	t.state = tsEligible
